@@ -36,7 +36,10 @@ Apply(dd) ==
 \* "rc:min=-1": the code sees p - 1; as an integer reading it violates min < max as well
 VARIABLES dev, pagedev
 Page0 == <<<<1, 10>>, <<2, 11>>, <<3, 12>>, <<7, 13>>, <<20, 14>>, <<21, 15>>>>     \* program 1..3, one other cell, output 20..21
-PageDevs == {"none", "shift-all", "addr+1@program", "addr+1@output", "drop-first", "drop-last", "drop-program-cell", "keep-1", "empty",
+\* the same page without output cells, for an empty output segment [20, 20)
+Page1 == <<<<1, 10>>, <<2, 11>>, <<3, 12>>, <<7, 13>>>>
+EoDevs == {"eo:none", "eo:keep-1", "eo:empty", "eo:drop-last", "eo:drop-program-tail", "eo:addr+1@program"}
+PageDevs == EoDevs \cup {"none", "shift-all", "addr+1@program", "addr+1@output", "drop-first", "drop-last", "drop-program-cell", "keep-1", "empty",
              "swap-program-cells", "append-after-output", "insert-middle", "value+1@program"}
 PageOf(d) ==
   CASE d = "none" -> Page0
@@ -52,12 +55,18 @@ PageOf(d) ==
     [] d = "append-after-output" -> Append(Page0, <<30, 16>>)
     [] d = "insert-middle" -> <<Page0[1], Page0[2], Page0[3], Page0[4], <<9, 99>>, Page0[5], Page0[6]>>
     [] d = "value+1@program" -> [Page0 EXCEPT ![2] = <<2, 12>>]
+    [] d = "eo:none" -> Page1
+    [] d = "eo:keep-1" -> <<Page1[1]>>
+    [] d = "eo:empty" -> <<>>
+    [] d = "eo:drop-last" -> SubSeq(Page1, 1, 3)
+    [] d = "eo:drop-program-tail" -> SubSeq(Page1, 1, 2)
+    [] d = "eo:addr+1@program" -> [Page1 EXCEPT ![2] = <<5, 11>>]
 Init == dev \in Devs /\ pagedev \in PageDevs
 Next == UNCHANGED <<dev, pagedev>>
 Valid == ValidPI(Apply(dev), L)
-PageOK == ProgramOutputOK(PageOf(pagedev), 1, 3, 20, 2)
+PageOK == ProgramOutputOK(PageOf(pagedev), 1, 3, 20, IF pagedev \in EoDevs THEN 0 ELSE 2)
 \* sanity of the catalogue: the base is valid, and both outcomes occur
 BaseValid == ValidPI(Base, L) /\ ProgramOutputOK(Page0, 1, 3, 20, 2)
 Emit == PrintT(<<"REPLAY", ToJson([dev |-> dev, valid |-> Valid, pagedev |-> pagedev, pageok |-> PageOK,
-                                   samehash |-> pagedev \in {"none", "insert-middle"}])>>)
+                                   samehash |-> pagedev \in {"none", "insert-middle", "eo:none", "eo:drop-last"}])>>)
 =============================================================================
